@@ -66,7 +66,7 @@ Definition sb_empty {D} : schema D := mk_schema [] [].
       entry.or_insert(def);                                                                 *)
 Definition sb_add {D} (b : schema D) (k : str) (d : D) : schema D :=
   if hm_mem (sc_types b) k then b
-  else mk_schema (sc_types b ++ [(k, d)]) (k :: sc_names b).
+  else mk_schema (sc_types b ++ [(k, d)]) (sc_names b ++ [k]).
 
 Definition sb_extend {D} (b : schema D) (items : list (str * D)) : schema D :=
   fold_left (fun b kd => sb_add b (fst kd) (snd kd)) items b.
